@@ -54,7 +54,7 @@ def check_polarity(ctx: Context, rep, rule: str, fn: FunctionInfo, minimum: int)
            message="the recorded digests are compared with freshly computed "
            "ones as whole tuples (== / !=)")
     for c, node in cmps:
-        whole = all(isinstance(x, (ast.Name, ast.Attribute))
+        whole = all(isinstance(x, (ast.Name, ast.Attribute, ast.Call))
                     for x in (c.left, c.comparators[0]))
         rep.ob(rule, whole, loc=fn.loc(c), where=fn.qualname,
                construct=short(c),
@@ -64,9 +64,15 @@ def check_polarity(ctx: Context, rep, rule: str, fn: FunctionInfo, minimum: int)
         stmt = node.stmt
         for differ in (True, False):
             def atom(e, c=c):
-                return "cmp" if e is c else None
+                if e is c:
+                    return "cmp"
+                # "expected digests were supplied" (the comparison is about
+                # that case)
+                if isinstance(e, ast.Name) and e.id == "hash_checksums_values":
+                    return "given"
+                return None
             val = differ if isinstance(c.ops[0], ast.NotEq) else not differ
-            v = Valuation(fn, atom, {"cmp": val}, inline=False)
+            v = Valuation(fn, atom, {"cmp": val, "given": True}, inline=False)
             t = v.truth(stmt.test) if isinstance(stmt, ast.If) else None
             if t is None:
                 res[differ] = "unknown"
@@ -148,8 +154,17 @@ def run(ctx: Context, rep) -> None:
         while p is not None and not isinstance(p, ast.If):
             p = parent(p)
         g = p
+    def only_given(test: ast.AST, call: ast.AST) -> bool:
+        # `if given:` around the comparison, or `if given and <comparison>:`
+        if ast.unparse(test) == "hash_checksums_values":
+            return True
+        return isinstance(test, ast.BoolOp) and isinstance(
+            test.op, ast.And) and ast.unparse(test.values[0]) == \
+            "hash_checksums_values" and any(
+                x is call for v_ in test.values[1:] for x in ast.walk(v_))
+
     rep.ob("C05.cover", bool(cmc) and isinstance(g, ast.If) and
-           ast.unparse(g.test) == "hash_checksums_values", loc=check.loc(),
+           only_given(g.test, cmc[-1]), loc=check.loc(),
            where=check.qualname,
            construct=f"if {short(g.test) if g else '?'}: compare root digests",
            message="supplied root digests are verified")
@@ -243,7 +258,7 @@ def run(ctx: Context, rep) -> None:
             nested = any(x is it_files[0] for x in ast.walk(it_shards[0]))
             hcalls = [c for c in ast.walk(it_files[0]) if isinstance(c, ast.Call)
                       and ctx.is_call(check, c, "utils.hash_checksums")]
-            h_ok = len(hcalls) == 1 and ast.unparse(ctx.arg(
+            h_ok = len(hcalls) == 1 and norm.canon(check, ctx.arg(
                 hcalls[0], 0, "file_path")) == \
                 f"self.path / {it_files[0].target.id}.file_path" and \
                 "hash_checksum_algorithms" in ast.unparse(
@@ -273,8 +288,10 @@ def run(ctx: Context, rep) -> None:
                 fp_def = n.value
     ok_r = len(rhc) == 1 and len(reads) == 1 and fp_def is not None and \
         norm.canon(rec, fp_def) == f"{rec_file}.file_path" and \
-        ast.unparse(ctx.arg(rhc[0], 0, "file_path")) == "self.path / file_path" \
-        and ast.unparse(reads[0].func.value) == "self.path / file_path" and \
+        norm.canon(rec, ctx.arg(rhc[0], 0, "file_path")) == \
+        f"self.path / {rec_file}.file_path" \
+        and norm.canon(rec, reads[0].func.value) == \
+        f"self.path / {rec_file}.file_path" and \
         "hash_checksum_algorithms" in ast.unparse(ctx.arg(rhc[0], 1, "hashes"))
     rep.ob("C05.cover", ok_r, loc=rec.loc(), where=rec.qualname,
            construct="hash(self.path / file_path) ... parse(self.path / "
